@@ -15,7 +15,10 @@ def str_elem(text):
 
 def str_distinct():
     cs = list(STR_ELEMS.values()) + [NONE_ELEM]
-    return z3.Distinct(cs) if len(cs) >= 2 else None
+    if len(cs) < 2:
+        return None
+    emp = z3.Function('is_empty', Elem, z3.BoolSort())
+    return z3.And([z3.Distinct(cs)] + [emp(c) == z3.BoolVal(t == '') for t, c in STR_ELEMS.items()])
 
 
 _ctr = [0]
